@@ -4,6 +4,10 @@
 package fault
 
 import (
+	"fmt"
+	"os"
+	"runtime/debug"
+	"strings"
 	"time"
 
 	"dsim"
@@ -18,9 +22,27 @@ type Plan struct {
 	Until  time.Duration      // simulated time after which no fault fires (0: no limit)
 	Off    bool
 	Fired  int
+	Skip   int // opportunities (of enabled kinds) to let pass before any fault may fire: places faults late in an operation
+	Seen   int
 }
 
 const key = "fault.plan"
+
+var traceFaults = os.Getenv("VERIF_TRACE_FAULTS") == "1"
+
+func shortStack() string {
+	lines := strings.Split(string(debug.Stack()), "\n")
+	var out []string
+	for _, l := range lines {
+		if strings.Contains(l, "/repo/") {
+			out = append(out, strings.TrimSpace(l))
+		}
+	}
+	if len(out) > 8 {
+		out = out[:8]
+	}
+	return "  " + strings.Join(out, "\n  ")
+}
 
 // Install attaches the plan to the active simulation.
 func Install(p *Plan) {
@@ -62,6 +84,10 @@ func Fire(kind string) bool {
 	if p.Until > 0 && s.Elapsed() > p.Until {
 		return false
 	}
+	p.Seen++
+	if p.Seen <= p.Skip {
+		return false
+	}
 	if !s.Tape().Bool(pr) {
 		return false
 	}
@@ -71,6 +97,9 @@ func Fire(kind string) bool {
 	p.Fired++
 	s.Fault(kind)
 	s.Event("fault:"+kind, 0)
+	if traceFaults {
+		fmt.Printf("FAULT %s fired in g%d(%s)\n%s\n", kind, s.Cur().ID(), s.Cur().Name(), shortStack())
+	}
 	if n, ok := s.Cur().Tag().(Noter); ok {
 		n.NoteFault(kind)
 	}
